@@ -343,8 +343,11 @@ func (dec *fecDecoder) getShardId(seqid uint32) uint32 {
 // discardShards removes shards that are too old from the shardSet
 func (dec *fecDecoder) discardShards() {
 	for shardId, shard := range dec.shardSet {
-		// discard shards that are too old
-		if _itimediff(dec.newestShardId*uint32(dec.shardSize), shardId*uint32(dec.shardSize)) > maxShardSets*int32(dec.shardSize) {
+		// discard shards that are too old, and shards that are not behind the newest one at all:
+		// a shard id half the id space away (or left "ahead" by a large jump of newestShardId)
+		// has a negative age and would otherwise never be discarded
+		age := _itimediff(dec.newestShardId*uint32(dec.shardSize), shardId*uint32(dec.shardSize))
+		if age > maxShardSets*int32(dec.shardSize) || age < 0 {
 			//println("flushing shard", shardId, "minShardId", dec.minShardId, _itimediff(dec.minShardId, shardId))
 			for _, pkt := range shard.elements {
 				defaultBufferPool.Put(pkt)
